@@ -398,8 +398,22 @@ class ExprMixin(object):
       raise Unsupported('dict unpacking in display')
     def fin(s, vals):
       n = len(e.keys)
-      return [(s, self.new_dict(s, list(zip(vals[:n], vals[n:]))))]
+      ks, vs = vals[:n], vals[n:]
+      if vs and any(getattr(v, 'pyonly', False) for v in vs):
+        # python-side dict (functions as values): keys must be constant strings or concrete enum members
+        d = VPyDict({})
+        for k, v in zip(ks, vs):
+          d.d[self.pykey(k)] = v
+        return [(s, d)]
+      return [(s, self.new_dict(s, list(zip(ks, vs))))]
     return self.then(self.eval_list(st, list(e.keys) + list(e.values)), fin)
+
+  def pykey(self, k):
+    if isinstance(k, VStr) and z3.is_string_value(z3.simplify(k.t)):
+      return z3.simplify(k.t).as_string()
+    if isinstance(k, VEnum) and z3.is_int_value(z3.simplify(k.t)):
+      return ('enum', k.enum.name, z3.simplify(k.t).as_long())
+    raise Unsupported('python-side dict key %r' % (k,))
 
   def e_UnaryOp(self, st, e):
     return self.then(self.eval(st, e.operand), lambda s, v: self.unary(s, type(e.op).__name__, v))
